@@ -189,6 +189,11 @@ def analyse(ctx, name, removing):
                 lp_guard_ok = bool(guard) and all(guard)
                 if evs:
                     yield ("guard", cls, lp, lp_guard_ok, evs)
+                if ex2 is not None and ex2[0] in ("break", "return"):
+                    # leaving the step loop skips the remaining steps: harmless only when they are all beyond the end of the log,
+                    # i.e. this step is (bound test false) and the steps come in ascending order
+                    outside = [c for c in conds if bound_test_on_log(c, stepname, cls) is not None and bound_test_on_log(c, stepname, cls) != c.truth]
+                    yield ("early-exit", cls, lp, bool(outside) and ok_order and not rev, ex2)
                 # time adjustment inside the project's loop
                 for e in flatten(tr):
                     if isinstance(e, Store) and e.attr == "time" and e.cls == PROJECT:
@@ -219,6 +224,12 @@ def check(ctx):
                 if not a:
                     ctx.violation(con, lp.loc, f"{name}: {cls} log edit is not guarded by `step < len(<own log>)`: a step beyond the end of the run is "
                                   f"{'popped (IndexError)' if 'remove' in name else 'inserted here but skipped by the guarded levels'}, so logs diverge in length")
+            elif kind == "early-exit":
+                con = f"{lp.func.qualname}:early-exit"
+                ctx.instance(con)
+                if not a:
+                    ctx.violation(con, lp.loc, f"{name}: the per-step loop over the {cls} logs is left early (`{b[0]}`) although later steps may still lie inside the log "
+                                  f"(only an ascending pass may stop at the first step beyond the end): those steps are not edited here but are edited in the other objects, so logs diverge in length")
             elif kind == "time-in-loop":
                 e = b
                 d = e.value - e.prev if isinstance(e.value, Poly) and isinstance(e.prev, Poly) else None
@@ -333,6 +344,45 @@ def check(ctx):
     ctx.end()
 
 
+def r18_6(ctx):
+    """Inserted state, as a table over (entry before, entry after) for every class with a state log: never WORKING (an inserted
+    step is a no-work step), and the siblings agree -- tasks with components, workers with facilities -- so that the step reads the
+    same at every level (a component is FINISHED in the inserted step exactly when its task is)."""
+    ctx.begin("R18.6", "inserted state by (entry before, entry after): never WORKING; task/component and worker/facility tables agree", floor=4)
+    tabs = {}
+    for cls, enum in ((TASK, TS), (COMPONENT, CS), (WORKER, WS), (FACILITY, FS_)):
+        f = ctx.repo.method(cls, "insert_absence_time_list")
+        tab = {}
+        for b in ctx.repo.enums[enum]:
+            for a in ctx.repo.enums[enum]:
+                I = mk_interp(ctx)
+                heap = {("self", "state_record_list"): ListV([E(enum, b), E(enum, a)], True, "list")}
+                outs = I.run_function(f, bind={f.params[1]: ListV([Poly.const(1)], True, "list")}, heap=heap)
+                got = set()
+                for st, ex in outs:
+                    if ex is not None and ex[0] == "raise":
+                        got.add("an exception")
+                    for e in flatten(st.trace):
+                        if isinstance(e, Mut) and e.attr == "state_record_list" and e.op == "insert" and len(e.args) == 2:
+                            v = e.args[1]
+                            got.add(v.single() if isinstance(v, EnumSet) and v.single() else None)
+                if len(got) != 1 or None in got:
+                    raise AnalysisError(f"R18.6: the state {cls}.insert_absence_time_list inserts between {b} and {a} is not determined ({sorted(map(str, got))})")
+                tab[(b, a)] = next(iter(got))
+                ctx.instance(f"{f.qualname}:inserted-state:{b},{a}", sample={"inserted": tab[(b, a)]})
+                if tab[(b, a)] == "WORKING":
+                    ctx.violation(f"{f.qualname}:inserted-working", f.loc(), f"{cls}: the absence step inserted between a {b} and a {a} entry is logged WORKING (an inserted step is a no-work step)")
+        tabs[cls] = (f, tab)
+    for x, y in ((TASK, COMPONENT), (WORKER, FACILITY)):
+        (fx, tx), (fy, ty) = tabs[x], tabs[y]
+        for k in sorted(set(tx) & set(ty)):
+            if tx[k] != ty[k]:
+                ctx.violation(f"{fy.qualname}:inserted-state-sibling:{k[0]},{k[1]}", fy.loc(),
+                              f"between a {k[0]} and a {k[1]} entry {x} inserts {tx[k]} but {y} inserts {ty[k]}: in the inserted step the two logs contradict each other "
+                              f"(e.g. a component shown {ty[k]} while its only task is {tx[k]})")
+    ctx.end()
+
+
 def r18_5(ctx):
     """Log reversal re-maps the project's absence steps; steps the run never reached must be dropped, otherwise a later
     remove_absence_time_list() pops negative indices (real work steps, or IndexError)."""
@@ -358,6 +408,7 @@ def r18_5(ctx):
 
 def run(ctx):
     check(ctx)
+    r18_6(ctx)
     r18_5(ctx)
     # after a reload the project's cost list is its own list again (not the organization's): the editors touch each list once
     from .C16 import r16_1
